@@ -199,7 +199,7 @@ theorem unlines_append (A B : List Str) : unlines (A ++ B) = unlines A ++ unline
   simp [unlines]
 
 theorem blockSerialize_lines (bname : Str) (cats : List (Str × Cols)) (Ws : List (List Str))
-    (h : CatsLines cats Ws) :
+    (h : CatsLines cats Ws) (hbn : NoBreak bname) :
     blockSerialize bname cats = .ok (unlines ((sData ++ bname) :: ['#'] :: segLines Ws)) := by
   have hm : mapM' catBlockText cats = .ok (Ws.map (fun W => unlines (W ++ [['#']]))) := by
     induction h with
@@ -207,8 +207,14 @@ theorem blockSerialize_lines (bname : Str) (cats : List (Str × Cols)) (Ws : Lis
     | cons h1 _ _ _ ih =>
       simp only [mapM', catBlockText, h1, ih, bind, Except.bind, List.map_cons]
       simp [unlines]
+  have hbk : bname.any isBreak = false := by
+    apply Bool.eq_false_iff.mpr
+    intro hh
+    simp only [List.any_eq_true] at hh
+    obtain ⟨c, hc, hb⟩ := hh
+    rw [hbn c hc] at hb; exact absurd hb (by simp)
   unfold blockSerialize
-  simp only [hm, bind, Except.bind]
+  simp only [hbk, Bool.false_eq_true, if_false, hm, bind, Except.bind]
   congr 1
   have hflat : (Ws.map (fun W => unlines (W ++ [['#']]))).flatten = unlines (segLines Ws) := by
     clear hm h
@@ -265,9 +271,7 @@ theorem header_facts (bname : Str) (hb : NameOk bname) :
     rw [hstrip]
     simp [sData]
   · simp [parseDataBlockName, sData, List.isPrefixOf]
-  · intro hm
-    have := hnows _ hm
-    simp [isWs_nl] at this
+  · exact noBreak_of_nows _ hnows
 
 /-- **A whole block**: serialise, cut into categories, parse each category. -/
 theorem block_roundtrip (bname : Str) (cats : List (Str × Cols)) (hb : NameOk bname)
@@ -276,7 +280,7 @@ theorem block_roundtrip (bname : Str) (cats : List (Str × Cols)) (hb : NameOk b
       blockSerialize bname cats = .ok (unlines ((sData ++ bname) :: ['#'] :: segLines Ws)) ∧
       blockParse (unlines ((sData ++ bname) :: ['#'] :: segLines Ws)) = .ok (cats.map (fun c => (some c.1, c))) := by
   obtain ⟨Ws, hWs⟩ := catsLines_exists cats hcats
-  refine ⟨Ws, hWs, blockSerialize_lines bname cats Ws hWs, ?_⟩
+  refine ⟨Ws, hWs, blockSerialize_lines bname cats Ws hWs (noBreak_of_nows _ (fun c hc => (hb c hc).1)), ?_⟩
   obtain ⟨hh1, hh2, hh3, _, hh5⟩ := header_facts bname hb
   -- no line break inside any line
   have hsegnl : ∀ l ∈ segLines Ws, NoBreak l := by
